@@ -125,6 +125,11 @@ int main(int argc, char **argv){
         return 0;
     }
 #endif
+    if (A.has("--trace")){ // print the operation trace of one schedule: --trace <scenario> [--choices 0,1,...]
+        int si = (int) A.geti("--trace", 0); auto ch = vf::jints(A.get("--choices", "")); std::vector<int> pre(ch.begin(), ch.end());
+        vx::Result x = vx::run(pre, [&]{ return body(si); }, 120.0, true);
+        printf("%s | %s\n", x.status.c_str(), x.obs.c_str()); for(auto &t : x.trace) printf("%s ", t.c_str()); printf("\n"); return 0;
+    }
     if (A.has("--replay")){
         std::string v = vf::slurp(A.get("--replay")); std::string cs = vf::jget(v, "case"); int si = atoi(vf::jget(cs, "scenario").c_str()); auto ch = vf::jints(vf::jget(cs, "choices")); std::vector<int> pre(ch.begin(), ch.end());
         // replay twice: identical observations are required before a failure is trusted
